@@ -1014,7 +1014,13 @@ class Engine:
         el = self.ut(ins['t'])['elem']
         oid = self.new_obj(st, self.zero(el), 'alloc', ins.get('pos') or ins.get('comment'), el)
         if ins.get('heap'):
-            self.count_alloc(st, 'Alloc', ins)
+            if ins.get('comment') == 'varargs':
+                # the argument array of a variadic call: not materialised for the append builtin,
+                # counted when it is passed to a real function (see call())
+                if st.ghost.get('allocs') is not None:
+                    st.ghost.setdefault('varargs', set()).add(oid)
+            else:
+                self.count_alloc(st, 'Alloc', ins)
         fr.regs[ins['reg']] = Ptr(oid, ())
 
     def count_alloc(self, st, kind, ins):
@@ -1637,6 +1643,12 @@ class Engine:
             return h(self, st, fr, fn, args, ins)
         if fn['external']:
             raise Unsupported('external function ' + fn['name'])
+        va = st.ghost.get('varargs')
+        if va:
+            for a in args:
+                if isinstance(a, SliceV) and a.obj in va:
+                    va.discard(a.obj)
+                    self.count_alloc(st, 'varargs', ins)
         nf = Frame(fn, args, fv.bindings)
         nf.ret_to = ins.get('reg')
         st.frames.append(nf)
@@ -1802,6 +1814,9 @@ class Engine:
     def sched_point(self, st, what):
         pass
 
+    def on_empty_frames(self, st):
+        return False
+
     def pool_release(self, st, item):
         pass
 
@@ -1927,8 +1942,12 @@ def _run_path(self, st):
     try:
         while True:
             if not st.frames:
-                self.end_path(st, 'ok')
-                return
+                r = self.on_empty_frames(st)
+                if r == 'dead':
+                    return
+                if not r:
+                    self.end_path(st, 'ok')
+                    return
             try:
                 self.step(st)
             except _Resume:
